@@ -148,7 +148,16 @@ func (p *pipe) receiver() {
 					// NB: If we ever do work to break
 					// up the locking, we will need to
 					// revisit this.
-					c.recvQ <- m
+					// With a zero length queue there is
+					// never room: the message can only
+					// be handed to a receiver that is
+					// waiting right now, else it is lost.
+					// Never block here, we hold the lock.
+					select {
+					case c.recvQ <- m:
+					default:
+						m.Free()
+					}
 				}
 			}
 		}
